@@ -2,7 +2,7 @@
    The model is "formatter, then lexer": each arm yields the TOKENS of the text the real arm writes
    (the tie compares with the real lexer run on the real formatter's output).  The one place where two
    writes fuse into one token is modelled explicitly: a slice with absent end and present step writes
-   ":" ":" = the single token `::` (PColonColon). *)
+   ":" ":" = the single token `::` (PColonColon), which parse_slice accepts since /repo 974c053. *)
 From Coq Require Import ZArith NArith List Bool.
 From Verif Require Import Fmt.Ast.
 Import ListNotations.
